@@ -28,6 +28,9 @@ fn name_for(i: usize) -> String {
 
 #[derive(Clone, Debug)]
 struct ListCase {
+    /// deliver the listing body in two TCP writes, cut at the k-th byte of the first multi-byte
+    /// character of the body (0 = one write); 100+k = cut k bytes before the end of the body
+    split: usize,
     realtime: bool,
     /// (name index, size index, fractional timestamp)
     objs: Vec<(usize, usize, bool)>,
@@ -38,7 +41,7 @@ struct ListCase {
 
 impl ListCase {
     fn json(&self) -> Value {
-        json!({"op": "list", "realtime": self.realtime, "objs": self.objs.iter().map(|o| json!([o.0, o.1, o.2])).collect::<Vec<_>>(), "fault": LIST_FAULTS[self.fault], "max_keys": self.max_keys, "big": self.big})
+        json!({"op": "list", "realtime": self.realtime, "objs": self.objs.iter().map(|o| json!([o.0, o.1, o.2])).collect::<Vec<_>>(), "fault": LIST_FAULTS[self.fault], "max_keys": self.max_keys, "big": self.big, "split": self.split})
     }
 }
 
@@ -77,6 +80,7 @@ fn check_list(ctx: &Ctx, sim: &Sim, rt: &tokio::runtime::Runtime, c: &ListCase, 
         let log = log.clone();
         let served = served.clone();
         let fault = c.fault;
+        let split = c.split;
         let all2 = all.clone();
         sim.set_handler(Box::new(move |req| {
             let mut l = log.lock().unwrap_or_else(|e| e.into_inner());
@@ -103,6 +107,22 @@ fn check_list(ctx: &Ctx, sim: &Sim, rt: &tokio::runtime::Runtime, c: &ListCase, 
                     }
                     let _ = &served;
                     let body = list_xml(bucket, prefix, &objs, trunc, order);
+                    if split > 0 {
+                        let bytes = body.as_bytes();
+                        let cut = if split >= 100 {
+                            bytes.len().saturating_sub(split - 100)
+                        } else {
+                            // k-th continuation position after the n-th non-ASCII lead byte
+                            let leads: Vec<usize> = (0..bytes.len()).filter(|i| bytes[*i] >= 0xC0).collect();
+                            match leads.get((split - 1) / 3) {
+                                Some(l) => l + 1 + (split - 1) % 3,
+                                None => bytes.len() / 2,
+                            }
+                        };
+                        let mut r = Response::xml(200, body);
+                        r.split_at = vec![cut];
+                        return r;
+                    }
                     match fault {
                         5 => Response::xml(200, body[..body.len() / 2].to_string() + "<<<&&&"),
                         8 => Response::xml(200, String::new()),
@@ -214,11 +234,13 @@ struct GetCase {
     status: u16,
     lm: usize,
     short_body: bool,
+    /// 0 = one write; k = body delivered in k+1 TCP writes
+    split: usize,
 }
 
 impl GetCase {
     fn json(&self) -> Value {
-        json!({"op": "get", "realtime": self.realtime, "name": self.name, "size": self.size, "status": self.status, "last_modified": LM_FORMS[self.lm], "short_body": self.short_body})
+        json!({"op": "get", "realtime": self.realtime, "name": self.name, "size": self.size, "status": self.status, "last_modified": LM_FORMS[self.lm], "short_body": self.short_body, "split": self.split})
     }
 }
 
@@ -252,7 +274,7 @@ fn check_get(ctx: &Ctx, sim: &Sim, rt: &tokio::runtime::Runtime, c: &GetCase, st
     {
         let log = log.clone();
         let data = data.clone();
-        let (status, lm, short) = (c.status, c.lm, c.short_body);
+        let (status, lm, short, split) = (c.status, c.lm, c.short_body, c.split);
         sim.set_handler(Box::new(move |req| {
             let mut l = log.lock().unwrap_or_else(|e| e.into_inner());
             l.requests.push(req.raw().to_string());
@@ -271,6 +293,10 @@ fn check_get(ctx: &Ctx, sim: &Sim, rt: &tokio::runtime::Runtime, c: &GetCase, st
             }
             if short && !r.body.is_empty() {
                 r.declared_len = Some(r.body.len() + 10);
+            }
+            if split > 0 && r.body.len() > 1 {
+                let n = r.body.len();
+                r.split_at = (1..=split).map(|k| (n * k / (split + 1)).max(1)).collect();
             }
             r
         }));
@@ -395,7 +421,7 @@ pub fn run(ctx: &'static Ctx) -> (&'static str, Value, Vec<&'static str>) {
                 }
                 let mks: Vec<usize> = if realtime { if fault == 0 { vec![1, 2, 100] } else { vec![100] } } else { vec![0] };
                 for mk in mks {
-                    lists.push(ListCase { realtime, objs: objs.clone(), fault, max_keys: mk, big: 0 });
+                    lists.push(ListCase { split: 0, realtime, objs: objs.clone(), fault, max_keys: mk, big: 0 });
                 }
             }
         }
@@ -403,10 +429,20 @@ pub fn run(ctx: &'static Ctx) -> (&'static str, Value, Vec<&'static str>) {
     for big in [999usize, 1000, 1001] {
         for realtime in [false, true] {
             for fault in [0usize, 1] {
-                lists.push(ListCase { realtime, objs: vec![(0, 1, true)], fault, max_keys: if realtime { 100 } else { 0 }, big });
+                lists.push(ListCase { split: 0, realtime, objs: vec![(0, 1, true)], fault, max_keys: if realtime { 100 } else { 0 }, big });
             }
         }
     }
+    // transport fragmentation: the body arrives in two pieces, cut inside a multi-byte character
+    // (every continuation position of the first few non-ASCII characters) or near the end
+    for realtime in [false, true] {
+        for objs in [vec![(4usize, 1usize, true), (5, 2, false)], vec![(5, 0, true)], vec![(4, 3, false), (0, 1, true), (5, 1, true)]] {
+            for split in (1..=12).chain([101, 105, 120, 160]) {
+                lists.push(ListCase { split, realtime, objs: objs.clone(), fault: 0, max_keys: 100, big: 0 });
+            }
+        }
+    }
+    lists.push(ListCase { split: 4, realtime: false, objs: vec![(5, 1, true)], fault: 0, max_keys: 0, big: 600 });
     for (i, c) in lists.iter().enumerate() {
         check_list(ctx, &sim, &rt, c, &mut stats);
         stats.dim("list_fault", LIST_FAULTS[c.fault]);
@@ -435,7 +471,12 @@ pub fn run(ctx: &'static Ctx) -> (&'static str, Value, Vec<&'static str>) {
                             if !thorough && name > 0 && size > 6 && status != 200 && status != 404 {
                                 continue;
                             }
-                            gets.push(GetCase { realtime, name, size, status, lm, short_body });
+                            gets.push(GetCase { realtime, name, size, status, lm, short_body, split: 0 });
+                            if status == 200 && lm == 0 && !short_body && size > 1 && name < 2 {
+                                for split in [1usize, 3] {
+                                    gets.push(GetCase { realtime, name, size, status, lm, short_body, split });
+                                }
+                            }
                         }
                     }
                 }
@@ -443,8 +484,8 @@ pub fn run(ctx: &'static Ctx) -> (&'static str, Value, Vec<&'static str>) {
         }
     }
     if !thorough {
-        gets.push(GetCase { realtime: false, name: 0, size: 2 << 20, status: 200, lm: 0, short_body: false });
-        gets.push(GetCase { realtime: true, name: 0, size: 2 << 20, status: 200, lm: 0, short_body: false });
+        gets.push(GetCase { realtime: false, name: 0, size: 2 << 20, status: 200, lm: 0, short_body: false, split: 0 });
+        gets.push(GetCase { realtime: true, name: 0, size: 2 << 20, status: 200, lm: 0, short_body: false, split: 2 });
     }
     for (i, c) in gets.iter().enumerate() {
         check_get(ctx, &sim, &rt, c, &mut stats);
@@ -460,7 +501,7 @@ pub fn run(ctx: &'static Ctx) -> (&'static str, Value, Vec<&'static str>) {
     }
     stats.count("download_scenarios", gets.len() as u64);
     let cov = stats.coverage(
-        "listings: bucket contents = all lists of 0..=2 objects (thorough: all triples; quick: every 7th) over a 10-name alphabet {plain, &, <>, quotes, é, 日本, 900-char, nested sub/NAME, ]]>, space} x 4 sizes (0, 1, 2^32, 2^64-1) x timestamp forms, plus near-miss keys that must be filtered, plus 999/1000/1001-object buckets; both listing entry points; max-keys {1,2,100}; response menu {normal, IsTruncated=true, size abc / -1 / 2^64, garbled XML, two element orders, empty body}. downloads: names x sizes {0,1,6,4 KiB[,2 MiB]} x status {200,204,206,400,403,404,500,503} x Last-Modified {present, absent, malformed} x short body. non-trivial = scenario with a fault / non-200 / >=2 objects",
+        "listings: bucket contents = all lists of 0..=2 objects (thorough: all triples; quick: every 7th) over a 10-name alphabet {plain, &, <>, quotes, é, 日本, 900-char, nested sub/NAME, ]]>, space} x 4 sizes (0, 1, 2^32, 2^64-1) x timestamp forms, plus near-miss keys that must be filtered, plus 999/1000/1001-object buckets; both listing entry points; max-keys {1,2,100}; response menu {normal, IsTruncated=true, size abc / -1 / 2^64, garbled XML, two element orders, empty body}; transport fragmentation: listing bodies delivered in two TCP writes cut at every continuation byte of the first non-ASCII characters and near the end, download bodies in 2 and 4 writes. downloads: names x sizes {0,1,6,4 KiB[,2 MiB]} x status {200,204,206,400,403,404,500,503} x Last-Modified {present, absent, malformed} x short body. non-trivial = scenario with a fault / non-200 / >=2 objects",
         true,
         json!({"list_faults": LIST_FAULTS, "statuses": STATUSES}),
     );
@@ -488,6 +529,7 @@ pub fn replay(ctx: &'static Ctx, case: &Value) {
                 fault: LIST_FAULTS.iter().position(|f| Some(*f) == case["fault"].as_str()).unwrap_or(0),
                 max_keys: case["max_keys"].as_u64().unwrap_or(100) as usize,
                 big: case["big"].as_u64().unwrap_or(0) as usize,
+                split: case["split"].as_u64().unwrap_or(0) as usize,
             };
             check_list(ctx, &sim, &rt, &c, &mut st);
             println!("replay list {:?} -> {:?}", c, st.outcomes);
@@ -500,6 +542,7 @@ pub fn replay(ctx: &'static Ctx, case: &Value) {
                 status: case["status"].as_u64().unwrap_or(200) as u16,
                 lm: LM_FORMS.iter().position(|f| Some(*f) == case["last_modified"].as_str()).unwrap_or(0),
                 short_body: case["short_body"].as_bool().unwrap_or(false),
+                split: case["split"].as_u64().unwrap_or(0) as usize,
             };
             check_get(ctx, &sim, &rt, &c, &mut st);
             println!("replay get {:?} -> {:?}", c, st.outcomes);
